@@ -27,17 +27,61 @@ def published_ids(calls):
     return out
 
 
-def paired_oracle(trial, calls):
-    """ids published to the synchronised clients with and without ephemeral requests (sync profile, state=None only)."""
+STATS = {'compared': 0, 'with_ahead': 0, 'publishes': 0, 'skip_events_attributed': 0}
+
+
+def _skips(trial, calls):
+    """(call index, new next id) of every call that moved the publisher's id without publishing the id it was at (state=None runs)."""
+    out, cur, k = [], 0, 0
+    for op in trial['ops']:
+        if op['k'] == 'd': continue
+        if k >= len(calls): break
+        outs = calls[k]; k += 1
+        if op['k'] != 'c': continue
+        nxt = [o['next'] for o in outs if o['k'] == 'ret']
+        if not nxt: continue
+        pubs = {o['mid'] for o in outs if o['k'] == 'pub' and o['mid'] >= 0}
+        if nxt[0] != cur and not (pubs == {cur} and nxt[0] == cur + 1): out.append((k - 1, nxt[0]))
+        cur = nxt[0]
+    return out
+
+
+def skip_oracle(trial, calls):
+    """Sound local clause: the publisher only ever skips ids because a *synchronised* client asked for a newer one, so a
+    skip to N needs a synchronised request carrying N-1 somewhere earlier in the feed (zeromq.py poll_recv: prev_id >= msg_id and not ephemeral)."""
     v = []
-    if trial['balance'] or any(op['k'] == 'c' and (op['state'] is not None or op['push']) for op in trial['ops']): return v
+    if any(op['k'] == 'c' and (op['state'] is not None or op['push']) for op in trial['ops']): return v
+    idx = {}; k = 0
+    for i, op in enumerate(trial['ops']):
+        if op['k'] != 'd': idx[k] = i; k += 1
+    for call, nxt in _skips(trial, calls):
+        STATS['skip_events_attributed'] += 1
+        if not any(op['k'] == 'd' and not op['r'].get('eph') and op['r']['mid'] == nxt - 1 for op in trial['ops'][:idx[call]]):
+            v.append(('eph-request-moved-publisher', f'call {call} moved the next id to {nxt} and no synchronised client ever requested {nxt - 1}'))
+    return v
+
+
+def paired_oracle(trial, calls):
+    """publishes with and without the ephemeral requests on the same feed (state=None only).  The comparison is only sound
+    where the open-loop feed cannot make the two runs diverge legitimately (see DESIGN.md 11.5): no id skip in either run (then
+    both publish 0,1,2,... and only the count can differ), no required outputs (a lazily noticed time-out of a required client
+    is noticed earlier when an ephemeral request wakes the sender), every publish made while a synchronised client is tracked."""
+    v = []
+    if trial['balance'] or trial['required'] or any(op['k'] == 'c' and (op['state'] is not None or op['push']) for op in trial['ops']): return v
     if not any(c['eph'] == 0 for c in trial['clients']): return v       # boundary: no synchronised client tracked
     if not any(op['k'] == 'd' and op['r'].get('eph') for op in trial['ops']): return v
-    base = sendfeed.run_impl(erase_eph(trial))
+    if _skips(trial, calls): return v
+    ephs = {c['cid'] for c in trial['clients'] if c['eph']}
+    snaps = trial.get('_snaps') or []
+    for k, outs in enumerate(calls):
+        if any(o['k'] == 'pub' and o['mid'] >= 0 for o in outs) and k < len(snaps):
+            if not any(not any(fid.startswith(e) for e in ephs) for fid in snaps[k]['clients']): return v
+    bt = erase_eph(trial)
+    base = sendfeed.run_impl(bt)
+    if _skips(bt, base): return v
     a = [i for i in published_ids(calls) if i is not None]
     b = [i for i in published_ids(base) if i is not None]
-    # with state None the id counter advances by one per publish, so compare the sequences: same prefix, the run with
-    # ephemeral requests may be ahead by the publishes triggered earlier, never behind and never different ids
+    STATS['compared'] += 1; STATS['with_ahead'] += len(a) > len(b); STATS['publishes'] += len(a)
     n = min(len(a), len(b))
     if a[:n] != b[:n]: v.append(('eph-alters-stream', f'with eph {a} / without {b}'))
     if len(a) < len(b): v.append(('eph-delays-publisher', f'with eph {len(a)} publishes, without {len(b)}'))
@@ -50,9 +94,10 @@ def run(ctx):
     protocol.recv_campaign(ctx, 'C05', n, ['wf', 'wf', 'adv'])
     npairs = [0]
     def extra(t, o):
-        r = paired_oracle(t, o)
+        r = paired_oracle(t, o) + skip_oracle(t, o)
         npairs[0] += 1
         return r
-    protocol.send_campaign(ctx, 'C05', n, ['sync', 'sync', 'adv'], extra_oracle=extra)
+    protocol.send_campaign(ctx, 'C05', n, ['sync', 'sync0', 'sync0', 'adv'], extra_oracle=extra)
     ctx.result.extra['paired_sender_runs'] = npairs[0]
+    ctx.result.extra['paired_oracle'] = dict(STATS)
     if not ctx.replay: pipeline.campaign_eph(ctx, 200 if ctx.thorough else 25)
